@@ -119,7 +119,16 @@ def run(tier, seed):
     cfg, tps, results, wall = cli.run_e1(PID, CORPUS, tier, seed)
     coverage, viols, harness = cli.summarise_e1(PID, cfg, tps, results, wall)
     coverage["corpus"] = CORPUS
+    from ..ch import runner
+
+    k1 = runner.run_harnesses("k1", tier, seed)
+    v_k1 = k1["violations"]
+    harness = list(harness) + k1["harness_faults"]
+    coverage["crosshair"] = [k1["coverage"]]
+    coverage["obligations"] += k1["paths_or_conditions"]
+    coverage["discharged"] += k1["confirmed"]
     v2, n_checked, samples = acceptance(cfg)
+    v2 = v2 + v_k1
     coverage["acceptance_clauses_checked"] = n_checked
     coverage["acceptance_samples"] = samples
     coverage["structural_obligations"] += n_checked
